@@ -463,8 +463,28 @@ def _check_wrap(r3, key, prog, b, p, rank_e, subst, nx, nt, acc, astuple, site, 
     elif not same_var:
         r3.violation(key, "emoji are wrapped with parts of %r / %r, not of the split value whose word was looked up (%r)"
                      % (pre[1], post[1], name_arg_part and name_arg_part[1]), site)
+    elif _other_stage_value(prog, b, pre[1]) is not None:
+        st = _other_stage_value(prog, b, pre[1])
+        r3.violation(key, "emoji are wrapped with the parts of one split value while the word candidates are built by %s from another one (%r): the two are "
+                     "converted / curled separately, so the emoji's punctuation differs from the word's" % (st[0].split("::")[-1], st[1]), site)
     else:
         r3.ok(key, "entry ↦ emoji_ranked(preceding ++ entry ++ trailing, zipped rank) on the builder's split value")
+
+
+def _other_stage_value(prog, b, split_e):
+    """A private stage of the builder (a local function handed a split value by reference) that receives a *different* split value than
+    the one the emoji are wrapped with: (callee, E) or None."""
+    for (bb, t) in b.calls():
+        g = callee_name(t)
+        if g not in prog.fns:
+            continue
+        for a in t["args"]:
+            ty = (a.get("place") or {}).get("ty") or a.get("ty") or ""
+            if c17.SPLIT_TY in ty and ty.lstrip().startswith("&"):
+                e = strip_refs(b.expr_operand(a))
+                if not _same_split(e, split_e):
+                    return g, e
+    return None
 
 
 def _same_split(a, b):
